@@ -73,7 +73,10 @@ def verify_one(job):
                 # an obligation proved on the reference tree is no longer discharged: look for a
                 # definitive finite-scope counterexample (G rendering)
                 from pyvc.heapvc import g_search
-                for K, L, tmo in ((6, 2, 40), (9, 2, 150)):
+                t_g = time.time()
+                for K, L, tmo in ((6, 2, 40), (7, 3, 60), (9, 2, 150)):
+                    if time.time() - t_g > 300:      # budget per regressed obligation
+                        break
                     try:
                         g = g_search(fv, ob, K=K, L=L, timeout_s=tmo)
                     except Exception as exc:      # noqa
